@@ -109,8 +109,23 @@ SANITY_SRC = '\\a{b}$c$\\begin{e}x\\end{e}'
 SANITY_REPR = None
 
 
+POISONED = False
+
+
 def sanity():
-    """After an aborted parse the library must still be usable."""
+    """After an aborted parse the library must still be usable.  Only the
+    first failure in a world is reported: every later run of a poisoned
+    process would fail too, and only the first one is the culprit."""
+    global SANITY_REPR, POISONED
+    if POISONED:
+        return True, ''
+    ok, why = _sanity()
+    if not ok:
+        POISONED = True
+    return ok, why
+
+
+def _sanity():
     global SANITY_REPR
     from TexSoup import TexSoup
     try:
